@@ -121,6 +121,9 @@ struct MCtx<'a> {
     honest: Vec<Option<CSig>>,
     honest_other: Vec<Option<CSig>>,
     tree: MiniTree,
+    /// the independent tree reproduces the root the real aggregate key commits to; when it does not (the
+    /// tree / leaf encoding under test changed) the hand-built bases, which need its structure, are skipped
+    tree_ok: bool,
     adv: Adversary,
     torsion: Vec<blst::blst_p1>,
 }
@@ -140,6 +143,7 @@ impl<'a> MCtx<'a> {
             honest: (0..n).map(|i| w.honest(i, msg)).collect(),
             honest_other: (0..n).map(|i| w.honest(i, other)).collect(),
             tree: MiniTree::new(w),
+            tree_ok: MiniTree::new(w).root() == w.root.as_slice(),
             adv: Adversary::new(),
             torsion: torsion_points(),
         }
@@ -163,24 +167,33 @@ impl<'a> MCtx<'a> {
         Cand { path_values: self.tree.batch_path(&slots), path_indices: slots, sigs: entries }
     }
 
-    /// base aggregates: (name, value, honest?, explored to full depth?)
-    fn bases(&self) -> Vec<(String, Cand, bool, bool)> {
+    /// base aggregates: (name, value, honest?, explored to full depth?), and observations
+    fn bases(&self, notes: &mut BTreeMap<String, u64>) -> Vec<(String, Cand, bool, bool)> {
         let n = self.w.parties.len();
         let mut out: Vec<(String, Cand, bool, bool)> = vec![];
+        let mut note = |k: &str| *notes.entry(k.to_string()).or_insert(0) += 1;
         let full_mask: u32 = (0..n).filter(|i| self.honest[*i].is_some()).map(|i| 1u32 << i).sum();
         for mask in 1u32..(1 << n) {
             let members: Vec<usize> = (0..n).filter(|i| mask & (1 << i) != 0 && self.honest[*i].is_some()).collect();
             if members.len() != (mask.count_ones() as usize) {
                 continue;
             }
-            let sigs: Vec<SingleSignature> =
-                members.iter().map(|i| decode_single_json(self.honest[*i].as_ref().unwrap()).expect("honest decodes")).collect();
-            if let Ok(a) = self.w.aggregate(&sigs, &self.msg) {
+            let sigs: Vec<SingleSignature> = members.iter().filter_map(|i| decode_single_json(self.honest[*i].as_ref().unwrap()).ok()).collect();
+            if sigs.len() != members.len() {
+                note("honest_signature_does_not_decode_from_its_own_json");
+            } else if let Ok(a) = self.w.aggregate(&sigs, &self.msg) {
                 // every aggregate the real clerk produces is explored to the full mutation depth
-                out.push((format!("clerk{members:?}"), aggregate_to_cand(&a).expect("aggregate json"), true, true));
+                match aggregate_to_cand(&a) {
+                    Some(c) => out.push((format!("clerk{members:?}"), c, true, true)),
+                    None => note("clerk_aggregate_json_form_not_readable_by_the_harness"),
+                }
             }
-            let entries: Vec<CSig> = members.iter().map(|i| self.honest[*i].clone().unwrap()).collect();
-            out.push((format!("hand{members:?}"), self.hand_built(entries), false, mask == full_mask));
+            if self.tree_ok {
+                let entries: Vec<CSig> = members.iter().map(|i| self.honest[*i].clone().unwrap()).collect();
+                out.push((format!("hand{members:?}"), self.hand_built(entries), false, mask == full_mask));
+            } else {
+                note("hand_built_bases_skipped_(merkle_structure_of_the_tree_under_test_unknown)");
+            }
         }
         // hand-made cross-signature collisions: two parties, both claiming only one common index
         for p in 0..n {
@@ -188,6 +201,10 @@ impl<'a> MCtx<'a> {
                 if let (Some(a), Some(b)) = (&self.honest[p], &self.honest[q])
                     && let Some(common) = a.indexes.iter().find(|i| b.indexes.contains(i))
                 {
+                    if !self.tree_ok {
+                        note("hand_built_bases_skipped_(merkle_structure_of_the_tree_under_test_unknown)");
+                        continue;
+                    }
                     let mut ea = a.clone();
                     let mut eb = b.clone();
                     ea.indexes = vec![*common];
@@ -566,7 +583,11 @@ fn eval_case(w: &World, r: &Reference, msg: &[u8], case: &Case, rep: &mut Report
         let (form, a) = (&forms[i].0, &forms[i].1);
         let form: &'static str = form;
         rep.eval();
-        let decoded = aggregate_to_cand(a).expect("decoded value has a JSON form");
+        // what the verifier holds, read back through the value's own JSON form (the wire model when that fails)
+        let decoded = aggregate_to_cand(a).unwrap_or_else(|| {
+            rep.add_extra("decoded_value_has_no_readable_json_form(wire_model_judged)", 1);
+            case.cand.clone()
+        });
         if decoded != case.cand {
             rep.add_extra("decoded_value_differs_from_wire_model", 1);
         }
@@ -657,7 +678,7 @@ fn eval_single(w: &World, r: &Reference, msg: &[u8], msg_is_a: bool, name: &str,
     }
     for (form, a) in forms {
         rep.eval();
-        let decoded = single_to_csig(&a, &s.vk, s.stake).expect("json of single signature");
+        let decoded = single_to_csig(&a, &s.vk, s.stake).unwrap_or_else(|| s.clone());
         rep.nontrivial(&("single", w.cfg.label(), msg_is_a, &decoded));
         let res = match mc_core::catch(|| a.verify::<D>(&w.params, &vk, &s.stake, &w.avk, msg)) {
             Ok(Ok(())) => Ok(()),
@@ -770,7 +791,7 @@ fn eval_batch(worlds: &[World], r: &Reference, members: &[&Member], rep: &mut Re
             for (i, m) in members.iter().enumerate() {
                 let w = &worlds[m.world];
                 let alone = w.verify(&sigs[i], &msgs[i]);
-                let judged = r.aggregate(&w.view, &msgs[i], &aggregate_to_cand(&sigs[i]).unwrap());
+                let judged = r.aggregate(&w.view, &msgs[i], &aggregate_to_cand(&sigs[i]).unwrap_or_else(|| m.cand.clone()));
                 if let Err(e) = &alone {
                     only_bls &= reject_label(e) == "bls-invalid";
                     bad.push(format!("member {i} ('{}', message {}, cfg {}) is rejected alone: {}", m.name, if m.msg_is_a {"A"} else {"B"}, w.cfg.label(), reject_label(e)));
@@ -803,6 +824,96 @@ fn eval_batch(worlds: &[World], r: &Reference, members: &[&Member], rep: &mut Re
 // driver
 // ---------------------------------------------------------------------------------------------
 
+/// Structure-independent oracle through the real API only: the aggregate key commits to every
+/// registered (key, stake). For every party j the registration is rebuilt with (a) one unit of
+/// stake moved to j from another party (total unchanged; a lone party just gets +1) and (b) j's key
+/// replaced by a fresh valid key. Aggregates produced by the real signers and clerk of the variant
+/// are verified under the original key and vice versa; an acceptance is judged by the reference
+/// against the registration the verifying key belongs to.
+fn commitment_probe(w: &World, r: &Reference, rep: &mut Report, only: Option<(usize, &str)>) {
+    let n = w.parties.len();
+    let (ma, _) = messages();
+    for j in 0..n {
+        for variant in ["stake", "key"] {
+            if only.is_some_and(|o| o != (j, variant)) {
+                continue;
+            }
+            let mut inits: Vec<mithril_stm::Initializer> = w.parties.iter().map(|p| p.init.clone()).collect();
+            if variant == "stake" {
+                let donor = (0..n).filter(|l| *l != j && inits[*l].stake >= 2).max_by_key(|l| inits[*l].stake);
+                inits[j].stake += 1;
+                if let Some(l) = donor {
+                    inits[l].stake -= 1;
+                }
+            } else {
+                let Ok(fresh) = World::fresh_initializer(&w.cfg, inits[j].stake, j as u8) else { continue };
+                inits[j] = fresh;
+            }
+            let mut cfg2 = w.cfg.clone();
+            cfg2.stakes = inits.iter().map(|i| i.stake).collect();
+            cfg2.split = "custom";
+            rep.eval();
+            let w2 = match World::try_from_inits(&cfg2, inits) {
+                Ok(w2) => w2,
+                Err(_) => {
+                    rep.outcome("commitment:variant-registration-not-buildable");
+                    continue;
+                }
+            };
+            rep.nontrivial(&("commitment", w.cfg.label(), j, variant));
+            let same_key = w2.avk == w.avk;
+            let mut accepted_forgery = false;
+            let mut cross_accepted_true = 0u64;
+            let mut probes = 0u64;
+            // (producer, verifier): an aggregate made in `prod` must not be accepted under `ver`'s key
+            // unless every pair it carries is registered in `ver` too
+            for (prod, ver, dir) in [(&w2, w, "variant→original"), (w, &w2, "original→variant")] {
+                for mask in 1u32..(1 << n) {
+                    if mask & (1 << j) == 0 {
+                        continue;
+                    }
+                    let sigs: Vec<SingleSignature> = (0..n)
+                        .filter(|i| mask & (1 << i) != 0)
+                        .filter_map(|i| mc_core::catch(|| prod.signers[i].create_single_signature(&ma).ok()).ok().flatten())
+                        .collect();
+                    let Ok(a) = prod.aggregate(&sigs, &ma) else { continue };
+                    probes += 1;
+                    if ver.verify(&a, &ma).is_err() {
+                        continue;
+                    }
+                    let Some(c) = aggregate_to_cand(&a) else { continue };
+                    match r.aggregate(&ver.view, &ma, &c) {
+                        Judge::Fails(key, why) => {
+                            accepted_forgery = true;
+                            let key = if same_key { "aggregate-key-does-not-commit-to-registered-party" } else { key };
+                            rep.violation(
+                                &format!("C01/{key}"),
+                                format!(
+                                    "cfg {}: registration variant '{variant}' of party {j} (stakes {:?}{}) has {} aggregate key; an aggregate produced by the real signers and clerk of one registration is accepted under the key of the other ({dir}) although {why}",
+                                    w.cfg.label(),
+                                    cfg2.stakes,
+                                    if variant == "key" { ", fresh key" } else { "" },
+                                    if same_key { "the SAME" } else { "a different" }
+                                ),
+                                json!({"kind": "commitment", "cfg": w.cfg.to_json(), "party": j, "variant": variant, "summary": c.short()}),
+                            );
+                        }
+                        _ => cross_accepted_true += 1,
+                    }
+                }
+            }
+            rep.add_extra("commitment_cross_verifications", probes);
+            rep.add_extra("commitment_cross_accepted_with_only_commonly_registered_pairs", cross_accepted_true);
+            rep.outcome(match (same_key, accepted_forgery) {
+                (false, false) => "commitment:keys-differ",
+                (false, true) => "commitment:keys-differ:UNSOUND",
+                (true, true) => "commitment:KEYS-EQUAL:UNSOUND",
+                (true, false) => "commitment:KEYS-EQUAL(no aggregate of the changed party could be produced to confirm)",
+            });
+        }
+    }
+}
+
 pub fn configs(tier: Tier) -> Vec<Cfg> {
     let mut out = vec![];
     for n in 1..=3usize {
@@ -823,22 +934,45 @@ pub fn configs(tier: Tier) -> Vec<Cfg> {
     out
 }
 
-/// choose the first key seed for which the full honest set aggregates for both messages
-pub fn settle_seed(cfg: &Cfg) -> (Cfg, World) {
+/// choose the first key seed for which the full honest set aggregates for both messages. When no
+/// seed does (the signer / aggregator under test is broken) the first buildable world is used: the
+/// oracles then judge whatever the real code produces. Err: the honest world cannot be built at all.
+pub fn settle_seed(cfg: &Cfg) -> Result<(Cfg, World), String> {
     let (ma, mb) = messages();
+    let mut first: Option<(Cfg, World)> = None;
+    let mut last_err = String::from("no world built");
     for seed in 1u8..=40 {
         let mut c = cfg.clone();
         c.seed = seed;
-        let w = World::build(&c);
-        let ok = [&ma, &mb].iter().all(|msg| {
-            let sigs: Vec<SingleSignature> = (0..c.n).filter_map(|i| w.signers[i].create_single_signature(msg).ok()).collect();
-            w.aggregate(&sigs, msg).is_ok()
-        });
+        let w = match World::try_build(&c) {
+            Ok(w) => w,
+            Err(e) => {
+                last_err = e;
+                if seed >= 3 && first.is_none() {
+                    break;
+                }
+                continue;
+            }
+        };
+        let ok = [&ma, &mb].iter().all(|msg| w.aggregate(&w.honest_raw(msg), msg).is_ok());
         if ok {
-            return (c, w);
+            return Ok((c, w));
+        }
+        if first.is_none() {
+            first = Some((c, w));
         }
     }
-    panic!("no seed gives an honest quorum for {}", cfg.label());
+    first.ok_or(last_err)
+}
+
+/// a violation of the completeness guard: the honest path of the real API fails
+pub fn setup_violation(rep: &mut Report, property: &str, cfg: &Cfg, route: &str, err: &str) {
+    rep.outcome("honest-setup-fails");
+    rep.violation(
+        &format!("{property}/honest-setup-fails"),
+        format!("{route}: registering honest parties / creating their signers / computing the aggregate key fails for cfg {}: {err}", cfg.label()),
+        json!({"kind": "setup", "route": route, "cfg": cfg.to_json()}),
+    );
 }
 
 fn replay(ctx: &Ctx, rep: &mut Report, r: &Reference) {
@@ -848,7 +982,10 @@ fn replay(ctx: &Ctx, rep: &mut Report, r: &Reference) {
     match v["kind"].as_str() {
         Some("aggregate") => {
             let cfg = Cfg::from_json(&v["cfg"]).expect("cfg");
-            let w = World::build(&cfg);
+            let w = match World::try_build(&cfg) {
+                Ok(w) => w,
+                Err(e) => return setup_violation(rep, "C01", &cfg, "stm", &e),
+            };
             let (msg, is_a) = pick(&v["message"]);
             let cand = Cand::from_json(&v["candidate"]).expect("candidate");
             let case = Case { world: 0, msg_is_a: is_a, depth: 0, honest: false, name: v["mutation"].as_str().unwrap_or("").into(), cand };
@@ -856,7 +993,10 @@ fn replay(ctx: &Ctx, rep: &mut Report, r: &Reference) {
         }
         Some("single") => {
             let cfg = Cfg::from_json(&v["cfg"]).expect("cfg");
-            let w = World::build(&cfg);
+            let w = match World::try_build(&cfg) {
+                Ok(w) => w,
+                Err(e) => return setup_violation(rep, "C01", &cfg, "stm", &e),
+            };
             let (msg, is_a) = pick(&v["message"]);
             let sj = &v["signature"];
             let s = CSig {
@@ -873,7 +1013,10 @@ fn replay(ctx: &Ctx, rep: &mut Report, r: &Reference) {
             let mut members = vec![];
             for m in v["members"].as_array().unwrap() {
                 let cfg = Cfg::from_json(&m["cfg"]).expect("cfg");
-                worlds.push(World::build(&cfg));
+                match World::try_build(&cfg) {
+                    Ok(w) => worlds.push(w),
+                    Err(e) => return setup_violation(rep, "C01", &cfg, "stm", &e),
+                }
                 let name = m["name"].as_str().unwrap_or("").to_string();
                 members.push(Member {
                     world: worlds.len() - 1,
@@ -886,6 +1029,19 @@ fn replay(ctx: &Ctx, rep: &mut Report, r: &Reference) {
             }
             let refs: Vec<&Member> = members.iter().collect();
             eval_batch(&worlds, r, &refs, rep);
+        }
+        Some("setup") => {
+            let cfg = Cfg::from_json(&v["cfg"]).expect("cfg");
+            if let Err(e) = World::try_build(&cfg) {
+                return setup_violation(rep, "C01", &cfg, "stm", &e);
+            }
+        }
+        Some("commitment") => {
+            let cfg = Cfg::from_json(&v["cfg"]).expect("cfg");
+            match World::try_build(&cfg) {
+                Ok(w) => commitment_probe(&w, r, rep, Some((v["party"].as_u64().unwrap_or(0) as usize, v["variant"].as_str().unwrap_or("stake")))),
+                Err(e) => return setup_violation(rep, "C01", &cfg, "stm", &e),
+            }
         }
         _ => rep.machinery_error("replay file has no known kind".into()),
     }
@@ -901,7 +1057,9 @@ pub fn run(ctx: &Ctx) -> ! {
          boundary indices, slot labels, claimed key/stake incl. an adversary key with a genuine signature, sigma substitutions, \
          every batch-path value/index edit, list permutation/duplication/split/drop) is decoded from JSON text, versioned CBOR \
          bytes and the legacy byte layout and verified; single signatures likewise; all ordered pairs/triples of a pool of \
-         accepted, rejected and sigma-shifted aggregates over several (message, key) contexts are batch-verified. A case is \
+         accepted, rejected and sigma-shifted aggregates over several (message, key) contexts are batch-verified; for every \
+         registered party the registration is rebuilt with its stake / its key changed and aggregates are cross-verified \
+         between the two aggregate keys. A case is \
          non-trivial when it decodes and reaches the verifier; distinct = distinct decoded values per (configuration, message)",
     );
     let r = Reference::new();
@@ -914,33 +1072,52 @@ pub fn run(ctx: &Ctx) -> ! {
     let (ma, mb) = messages();
 
     // worlds: two per configuration (the second, with other keys, is the "different key" context of batches)
-    let cfgs = configs(ctx.tier);
-    let built: Vec<(World, World)> = par_map(&cfgs, threads, |_, c| {
-        let (c1, w1) = settle_seed(c);
+    let all_cfgs = configs(ctx.tier);
+    let built: Vec<Result<(World, World), String>> = par_map(&all_cfgs, threads, |_, c| {
+        let (c1, w1) = settle_seed(c)?;
         let mut c2 = c.clone();
         c2.seed = c1.seed + 40;
-        let w2 = loop {
-            let w = World::build(&c2);
-            let sigs: Vec<SingleSignature> = (0..c2.n).filter_map(|i| w.signers[i].create_single_signature(&ma).ok()).collect();
-            if w.aggregate(&sigs, &ma).is_ok() {
-                break w;
+        let mut w2: Option<World> = None;
+        for _ in 0..40 {
+            if let Ok(w) = World::try_build(&c2) {
+                let ok = w.aggregate(&w.honest_raw(&ma), &ma).is_ok();
+                if ok || w2.is_none() {
+                    w2 = Some(w);
+                }
+                if ok {
+                    break;
+                }
             }
             c2.seed += 1;
-        };
-        (w1, w2)
+        }
+        Ok((w1, w2.ok_or("the second world of the configuration cannot be built")?))
     });
     let mut worlds: Vec<World> = vec![];
-    for (a, b) in built {
-        worlds.push(a);
-        worlds.push(b);
-    }
-    for w in &worlds {
-        // the root the aggregate key commits to must be the root of the registration the harness built
-        let t = MiniTree::new(w);
-        if t.root() != w.root.as_slice() {
-            rep.machinery_error(format!("aggregate key of {} does not commit to the independently computed Merkle root", w.cfg.label()));
+    let mut cfgs: Vec<Cfg> = vec![];
+    for (c, b) in all_cfgs.iter().zip(built) {
+        match b {
+            Ok((a, b)) => {
+                cfgs.push(c.clone());
+                worlds.push(a);
+                worlds.push(b);
+            }
+            // the honest path of the real API fails: completeness guard, not a machinery problem
+            Err(e) => setup_violation(&mut rep, "C01", c, "stm", &e),
         }
     }
+    let mut root_mismatch = vec![];
+    for w in &worlds {
+        // Does the independent tree reproduce the root the real key commits to? If not, the tree / leaf
+        // encoding under test differs from the documented one: recorded, the hand-built bases of that world
+        // are skipped, every oracle that works through the real API keeps running.
+        if MiniTree::new(w).root() != w.root.as_slice() {
+            root_mismatch.push(w.cfg.label());
+        }
+        for n in &w.notes {
+            rep.add_extra(&format!("world_note: {n}"), 1);
+        }
+    }
+    rep.extra("worlds_whose_real_merkle_root_differs_from_the_independent_tree", json!(root_mismatch));
     rep.extra("configurations", json!(cfgs.len()));
     rep.extra("max_mutation_depth", json!(depth));
     rep.extra(
@@ -951,13 +1128,15 @@ pub fn run(ctx: &Ctx) -> ! {
 
     // ---- stage 1: generate the cases of every (primary world, message)
     let units: Vec<(usize, bool)> = (0..cfgs.len()).flat_map(|i| [(2 * i, true), (2 * i, false)]).collect();
-    let generated: Vec<Vec<Case>> = par_map(&units, threads, |_, (wi, is_a)| {
+    let generated: Vec<(Vec<Case>, BTreeMap<String, u64>)> = par_map(&units, threads, |_, (wi, is_a)| {
         let w = &worlds[*wi];
         let (msg, other) = if *is_a { (&ma, &mb) } else { (&mb, &ma) };
+        mc_core::catch(|| {
         let mc = MCtx::new(w, &r, msg, other);
         let mut seen: BTreeSet<u64> = BTreeSet::new();
         let mut cases = vec![];
-        let bases = mc.bases();
+        let mut notes: BTreeMap<String, u64> = BTreeMap::new();
+        let bases = mc.bases(&mut notes);
         for (bname, base, honest, _) in &bases {
             if seen.insert(mc_core::hash64(base)) || *honest {
                 cases.push(Case { world: *wi, msg_is_a: *is_a, depth: 0, honest: *honest, name: bname.clone(), cand: base.clone() });
@@ -981,9 +1160,17 @@ pub fn run(ctx: &Ctx) -> ! {
                 }
             }
         }
-        cases
+        (cases, notes)
+        })
+        .unwrap_or_else(|p| (vec![], BTreeMap::from([(format!("case_generation_panicked: {p} at {}", mc_core::last_panic_location()), 1u64)])))
     });
-    let cases: Vec<Case> = generated.into_iter().flatten().collect();
+    let mut cases: Vec<Case> = vec![];
+    for (c, notes) in generated {
+        cases.extend(c);
+        for (k, v) in notes {
+            rep.add_extra(&k, v);
+        }
+    }
     rep.extra("aggregate_candidates", json!(cases.len()));
     rep.extra("aggregate_candidates_by_depth", json!((0..=2).map(|d| cases.iter().filter(|c| c.depth == d).count()).collect::<Vec<_>>()));
 
@@ -995,7 +1182,22 @@ pub fn run(ctx: &Ctx) -> ! {
         for (j, case) in chunk.iter().enumerate() {
             let w = &worlds[case.world];
             let msg = if case.msg_is_a { &ma } else { &mb };
-            let v = eval_case(w, &r, msg, case, &mut rp, case.depth <= 1);
+            let v = match mc_core::catch(|| eval_case(w, &r, msg, case, &mut rp, case.depth <= 1)) {
+                Ok(v) => v,
+                Err(p) => {
+                    // a panic outside the guarded verify call (decoders, encoders, Serialize of the code under test)
+                    rp.add_extra("panics_outside_verify", 1);
+                    rp.outcome("rejected:panic-outside-verify");
+                    if case.honest {
+                        rp.violation(
+                            "C01/honest-aggregate-rejected",
+                            format!("handling the clerk's own aggregate panics (cfg {}, {}): {p} at {}", w.cfg.label(), case.name, mc_core::last_panic_location()),
+                            case_json(w, case.msg_is_a, &case.name, &case.cand),
+                        );
+                    }
+                    Verdicts { accepted: false, label: "rejected:panic".into() }
+                }
+            };
             if case.depth <= 1 {
                 labels.push((ci * 64 + j, v.label.clone()));
             }
@@ -1016,16 +1218,40 @@ pub fn run(ctx: &Ctx) -> ! {
         let mut rp = Report::new("exploration", "");
         let w = &worlds[*wi];
         let (msg, other) = if *is_a { (&ma, &mb) } else { (&mb, &ma) };
-        let mc = MCtx::new(w, &r, msg, other);
+        let candidates = mc_core::catch(|| MCtx::new(w, &r, msg, other).single_candidates()).unwrap_or_else(|_| {
+            rp.add_extra("case_generation_panicked(single signatures)", 1);
+            vec![]
+        });
         let mut seen = BTreeSet::new();
-        for (name, s) in mc.single_candidates() {
-            if seen.insert(mc_core::hash64(&s)) {
-                eval_single(w, &r, msg, *is_a, &name, &s, &mut rp);
+        for (name, s) in candidates {
+            if seen.insert(mc_core::hash64(&s)) && mc_core::catch(|| eval_single(w, &r, msg, *is_a, &name, &s, &mut rp)).is_err() {
+                rp.add_extra("panics_outside_verify", 1);
+                rp.outcome("single:rejected:panic-outside-verify");
+                if name.starts_with("honest") && !name.contains(':') {
+                    rp.violation(
+                        "C01/honest-single-signature-rejected",
+                        format!("handling a registered signer's own signature panics (cfg {}): at {}", w.cfg.label(), mc_core::last_panic_location()),
+                        json!({"kind": "setup", "route": "stm", "cfg": w.cfg.to_json()}),
+                    );
+                }
             }
         }
         rp
     });
     for p in singles {
+        rep.merge(p);
+    }
+
+    // ---- the aggregate key commits to every registered (key, stake): real API only, no tree structure assumed
+    let primaries: Vec<usize> = (0..cfgs.len()).map(|i| 2 * i).collect();
+    let cparts: Vec<Report> = par_map(&primaries, threads, |_, wi| {
+        let mut rp = Report::new("exploration", "");
+        if mc_core::catch(|| commitment_probe(&worlds[*wi], &r, &mut rp, None)).is_err() {
+            rp.add_extra("panics_outside_verify", 1);
+        }
+        rp
+    });
+    for p in cparts {
         rep.merge(p);
     }
 
@@ -1065,9 +1291,9 @@ pub fn run(ctx: &Ctx) -> ! {
             }
             // the other-key context: its honest aggregate and a shifted pair of it when it has one entry
             let w2 = &worlds[2 * ci + 1];
-            let sigs: Vec<SingleSignature> = (0..w2.cfg.n).filter_map(|i| w2.signers[i].create_single_signature(&ma).ok()).collect();
-            if let Ok(a) = w2.aggregate(&sigs, &ma) {
-                let c = aggregate_to_cand(&a).unwrap();
+            if let Ok(a) = w2.aggregate(&w2.honest_raw(&ma), &ma)
+                && let Some(c) = aggregate_to_cand(&a)
+            {
                 pool.extend(shifted_members(w2, &r, &ma, 2 * ci + 1, true, "other-key-honest", &c).into_iter().take(2));
                 pool.push(Member { world: 2 * ci + 1, msg_is_a: true, name: "other-key-honest".into(), cand: c, shifted: false, accepted: true });
             }
@@ -1103,7 +1329,10 @@ pub fn run(ctx: &Ctx) -> ! {
         let mut rp = Report::new("exploration", "");
         for (ci, ids) in chunk.iter() {
             let members: Vec<&Member> = ids.iter().map(|i| &pools[*ci][*i]).collect();
-            eval_batch(&worlds, &r, &members, &mut rp);
+            if mc_core::catch(|| eval_batch(&worlds, &r, &members, &mut rp)).is_err() {
+                rp.add_extra("panics_outside_verify", 1);
+                rp.outcome("batch:rejected:panic-outside-verify");
+            }
         }
         rp
     });
